@@ -34,6 +34,7 @@ WR(s, via)     == [op |-> "WR", c |-> 0, size |-> s, via |-> via]
 CL             == [op |-> "CL", c |-> 0]
 WM(t, s)       == [op |-> "WM", c |-> 0, type |-> t, size |-> s]
 WJ(s)          == [op |-> "WJ", c |-> 0, size |-> s]
+WJB            == [op |-> "WJB", c |-> 0]
 WC(t, s, dl)   == [op |-> "WC", c |-> 0, type |-> t, size |-> s, dl |-> dl]
 WP(p)          == [op |-> "WP", c |-> 0, pm |-> p]
 SD(d)          == [op |-> "SD", c |-> 0, dl |-> d]
@@ -175,7 +176,7 @@ DoCL(o) ==
            ELSE IF bigCtl THEN ErrO ELSE IF g.failed THEN ErrX ELSE Nil
   IN Record(o, e, g.tx, CLStep(st, e, g.tx))
 
-DoWM(o, type, n) ==
+DoWMX(o, type, n, jfail) ==
   LET st == St
       dead == st.err # "none"
       g1 == IF dead THEN (IF st.open THEN PoolPut(G0(st, nops), st) ELSE G0(st, nops)) ELSE GenImplicit(G0(st, nops), st)
@@ -195,8 +196,11 @@ DoWM(o, type, n) ==
       g2 == IF cont THEN body ELSE g1
       e  == IF dead THEN (IF st.err = "fatal" THEN ErrX ELSE ErrC)
             ELSE IF g1.failed THEN ErrX ELSE IF g1.v.err = "closesent" THEN ErrC
-            ELSE IF ~valid THEN ErrO ELSE IF g2.failed THEN ErrX ELSE Nil
-  IN Record([o EXCEPT !.op = "WM"], e, g2.tx, WMStep(st, type, n, MsgId, e, g2.tx))
+            ELSE IF ~valid THEN ErrO ELSE IF g2.failed THEN ErrX ELSE IF jfail THEN ErrO ELSE Nil
+  IN Record([o EXCEPT !.op = IF jfail THEN "WJB" ELSE "WM"], e, g2.tx, WMStepX(st, type, n, MsgId, e, g2.tx, jfail))
+
+DoWM(o, type, n) == DoWMX(o, type, n, FALSE)
+DoWJB(o) == DoWMX(o, OpText, 0, TRUE)
 
 DoWC(o) ==
   LET st == St
@@ -247,6 +251,7 @@ Step ==
        [] o.op = "CL" -> DoCL(o)
        [] o.op = "WM" -> DoWM(o, o.type, Sz(o.size))
        [] o.op = "WJ" -> DoWM(o, OpText, Sz(o.size) + 3)
+       [] o.op = "WJB" -> DoWJB(o)
        [] o.op = "WC" -> DoWC(o)
        [] o.op = "WP" -> DoWP(o)
        [] OTHER -> DoSet(o)
